@@ -422,13 +422,27 @@ where
             } else if Ch::EXISTS {
                 // children
                 *position = Position::FirstChild;
-                self.children.to_html_with_buf(
-                    buf,
-                    position,
-                    E::ESCAPE_CHILDREN,
-                    mark_branches,
-                    vec![],
-                );
+                if !E::ESCAPE_CHILDREN
+                    && is_escapable_raw_text(self.tag.tag())
+                {
+                    let mut text = String::new();
+                    self.children.to_html_with_buf(
+                        &mut text,
+                        position,
+                        E::ESCAPE_CHILDREN,
+                        mark_branches,
+                        vec![],
+                    );
+                    buf.push_str(&html_escape::encode_text(&text));
+                } else {
+                    self.children.to_html_with_buf(
+                        buf,
+                        position,
+                        E::ESCAPE_CHILDREN,
+                        mark_branches,
+                        vec![],
+                    );
+                }
             }
 
             // closing tag
@@ -466,6 +480,10 @@ where
             if !inner_html.is_empty() {
                 buffer.push_sync(&inner_html);
             } else if Ch::EXISTS {
+                let escapable = !E::ESCAPE_CHILDREN
+                    && is_escapable_raw_text(self.tag.tag());
+                let text_start = buffer.sync_buf.len();
+                let chunks_before = buffer.chunks.len();
                 self.children.to_html_async_with_buf::<OUT_OF_ORDER>(
                     buffer,
                     position,
@@ -473,6 +491,14 @@ where
                     mark_branches,
                     vec![],
                 );
+                // if the children did not push any asynchronous chunk, everything they
+                // wrote is still at the end of the synchronous buffer
+                if escapable && buffer.chunks.len() == chunks_before {
+                    let text = buffer.sync_buf.split_off(text_start);
+                    buffer
+                        .sync_buf
+                        .push_str(&html_escape::encode_text(&text));
+                }
             }
 
             // closing tag
@@ -571,6 +597,14 @@ where
             children: self.children.into_owned(),
         }
     }
+}
+
+/// `<textarea>` is an "escapable raw text" element: the child markers that ordinary elements
+/// need mean nothing inside it (which is why its children are rendered without them), but
+/// character references are decoded in it and `</textarea` ends it, so its text still has to
+/// be escaped like any other text.
+fn is_escapable_raw_text(tag: &str) -> bool {
+    tag == "textarea"
 }
 
 /// Renders an [`Attribute`] (which can be one or more HTML attributes) into an HTML buffer.
